@@ -204,6 +204,70 @@ func checkC15(c *Ctx, r *Report) {
 				"stack[pointer] occurs only as the target of PushStateSym's store: no value is read from (and no pointer taken to) a slot that is not part of the current stack",
 				"a slot at the pointer (above the top of the stack) is read or aliased: "+strings.Join(stale, "; ")+" — it holds leftovers of earlier pushes, which ParserInit does not clear")
 		}
+		// when ParserInit keeps the old array (it appends and moves the pointer), the LENGTH of the stack is history too:
+		// it is the high-water mark of every parse the context has served plus one per re-initialisation. The only use
+		// that cannot leak it is the comparison with the pointer that chooses between appending and overwriting (and
+		// the sanity comparison of the same two quantities); a limit, an index or an iteration derived from the
+		// length makes a parse depend on the parses before it
+		if strings.HasPrefix(slotHow, "appended") {
+			var leaks []string
+			uses := 0
+			for _, d := range sk.File.Decls {
+				fd, isF := d.(*ast.FuncDecl)
+				if !isF || fd.Body == nil || fd.Name.Name == "GetToken" {
+					continue
+				}
+				isStack := func(e ast.Expr) bool {
+					base := strings.TrimSpace(printNode(sk.Fset, unparen(e)))
+					return base == "StateSymStack" || strings.HasSuffix(base, ".StackSym")
+				}
+				pmF := parentMap(fd.Body)
+				ast.Inspect(fd.Body, func(n ast.Node) bool {
+					switch x := n.(type) {
+					case *ast.RangeStmt:
+						if isStack(x.X) {
+							leaks = append(leaks, fmt.Sprintf("%s iterates over the whole array at %s", fd.Name.Name, sk.pos(x.Pos())))
+						}
+					case *ast.CallExpr:
+						id, isId := unparen(x.Fun).(*ast.Ident)
+						if !isId || (id.Name != "len" && id.Name != "cap") || len(x.Args) != 1 || !isStack(x.Args[0]) {
+							return true
+						}
+						if _, isB := sk.Info.Uses[id].(*types.Builtin); !isB {
+							return true
+						}
+						uses++
+						var up ast.Node = pmF[x]
+						var self ast.Expr = x
+						for {
+							p, isP := up.(*ast.ParenExpr)
+							if !isP {
+								break
+							}
+							self, up = p, pmF[p]
+						}
+						if be, isBE := up.(*ast.BinaryExpr); isBE {
+							switch be.Op {
+							case token.GEQ, token.LEQ, token.LSS, token.GTR, token.EQL, token.NEQ:
+								other := be.X
+								if unparen(be.X) == unparen(self) || be.X == self {
+									other = be.Y
+								}
+								if isStackPointerExpr(sk.Info, other) {
+									return true
+								}
+							}
+						}
+						leaks = append(leaks, fmt.Sprintf("%s uses %s at %s", fd.Name.Name, oneLine(printNode(sk.Fset, up)), sk.pos(x.Pos())))
+					}
+					return true
+				})
+			}
+			sort.Strings(leaks)
+			r.Check(len(leaks) == 0 && uses > 0, "C15.c", "R12 STATE-INVENTORY", name+"/stack-length-only-against-the-pointer", sk.pos(parser.Pos()),
+				fmt.Sprintf("ParserInit keeps the array, so its length records earlier parses; all %d uses of len(stack) are comparisons with the stack pointer", uses),
+				"the length of the stack array (which ParserInit never shrinks: it grows with every parse and re-initialisation of the context) is used other than in a comparison with the stack pointer: "+strings.Join(leaks, "; "))
+		}
 		// slots are written only at the pointer or above-by-append: PushStateSym stores at [pointer]
 		push := sk.FuncDecl(recv, "PushStateSym")
 		if push != nil {
